@@ -125,7 +125,10 @@ func (c *NoiseConn) Read(b []byte) (n int, err error) {
 	// maintain an intermediate read buffer. If this buffer becomes
 	// depleted, then we read the next record, and feed it into the
 	// buffer. Otherwise, we read directly from the buffer.
-	if c.readBuf.Len() == 0 {
+	// A record may be empty (a zero length Write on the other side). Skip
+	// those: handing an empty buffer to bytes.Buffer.Read would make it
+	// report io.EOF although the stream continues.
+	for c.readBuf.Len() == 0 {
 		plaintext, err := c.noise.ReadMessage(c.conn)
 		if err != nil {
 			return 0, err
